@@ -1,4 +1,5 @@
 import Proofs.C16.Musig2Agg
+import Proofs.C16.SilentPayments
 /-!
 # C16 — property theorems only (see DESIGN.md §3 C16).
 
@@ -107,5 +108,114 @@ theorem musig2_adaptor_completes (L : Lawful o G) (H : Bytes → Bytes → Bytes
 proofs used (a changed `_PK_SIZE`, `_SCALAR_SIZE`, `_NONCE_SIZE` or `_INF_BYTES` breaks this) -/
 example : (EC.ops EC.secp256k1).p ≤ 256 ^ 32 ∧ (EC.ops EC.secp256k1).n ≤ 256 ^ 32 := by decide
 example : pkSize = 33 ∧ scalarSize = 32 ∧ nonceSize = 66 ∧ infBytes = List.replicate 33 0 := by decide
+
+/-! ## ECDH (SEC 1 §6.1, `dh.diffie_hellman`) -/
+
+/-- **T5.** Both sides of an ECDH exchange derive the same keying data — for ANY key-derivation
+function of the shared x-coordinate (ANSI-X9.63, HKDF, …), any two private scalars; when the shared
+point is ∞ both sides fail alike. -/
+theorem ecdh_symmetric (L : Lawful o G) (kdf : Bytes → R Bytes) (a b : Int) :
+    diffieHellman o kdf a (o.mul b o.gen) = diffieHellman o kdf b (o.mul a o.gen) :=
+  dh_symmetric L kdf a b
+
+/-- T5 on an arbitrary base point (x-only ECDH / ElligatorSwift-style exchanges on a lifted point). -/
+theorem ecdh_symmetric_base (L : Lawful o G) (kdf : Bytes → R Bytes) (a b : Int) (P : α) :
+    diffieHellman o kdf a (o.mul b P) = diffieHellman o kdf b (o.mul a P) :=
+  dh_symmetric_base L kdf a b P
+
+/-! ## DLEQ (BIP374) -/
+
+/-- **T8 (verification equation).** `assert_proof_as_valid` accepts exactly when the sizes are right,
+`s < n`, `R₁ = s•G' − e•A ≠ ∞`, `R₂ = s•B − e•C ≠ ∞` and `e` is the challenge hash of
+`(A, B, C, G', R₁, R₂, m)`. -/
+theorem dleq_verify_iff (H : Bytes → Bytes → Bytes) (A B C Gp : α) (proof : Bytes) (msg : Option Bytes) :
+    dleqVerify o H A B C proof Gp msg = .ok () ↔
+      ∃ m, dleqMsg msg = .ok m ∧ proof.length = 64 ∧
+        fromBytesBE (proof.drop 32) < o.n ∧
+        o.isZero (o.dmul (fromBytesBE (proof.drop 32)) Gp (-(fromBytesBE (proof.take 32))) A) = false ∧
+        o.isZero (o.dmul (fromBytesBE (proof.drop 32)) B (-(fromBytesBE (proof.take 32))) C) = false ∧
+        fromBytesBE (proof.take 32) =
+          dleqChallenge o H A B C (o.dmul (fromBytesBE (proof.drop 32)) Gp (-(fromBytesBE (proof.take 32))) A)
+            (o.dmul (fromBytesBE (proof.drop 32)) B (-(fromBytesBE (proof.take 32))) C) Gp m :=
+  dleqVerify_iff H A B C Gp proof msg
+
+/-- **T8 (completeness).** For any secret `a`, any nonce `k ∈ 1..n-1`, any generator `G' ≠ ∞`, any
+`B ≠ ∞` and any message, the proof `(e, k + e·a)` verifies for the statement `(a•G', B, a•B)` it was
+made for (`H` any hash with 32-byte digests). -/
+theorem dleq_complete (L : Lawful o G) (H : Bytes → Bytes → Bytes) (hn : o.n ≤ 256 ^ 32)
+    (hH : ∀ t m, (H t m).length = 32) (a k : Int) (hk0 : 0 < k) (hk1 : k < o.n) (B Gp : α)
+    (hB : L.abs B ≠ 0) (hG : L.abs Gp ≠ 0) (msg : Option Bytes) (m : Bytes) (hm : dleqMsg msg = .ok m) :
+    dleqVerify o H (o.mul a Gp) B (o.mul a B) (dleqProofOf o H a k B Gp m) Gp msg = .ok () :=
+  dleq_complete_nonce L H hn hH a k hk0 hk1 B Gp hB hG msg m hm
+
+/-- T8: `generate_proof` answers (its built-in self-check never fires) for every in-range secret,
+32-byte aux and admissible message, unless the derived nonce is zero; and what it answers verifies. -/
+theorem dleq_generate_ok (L : Lawful o G) (H : Bytes → Bytes → Bytes) (hn : o.n ≤ 256 ^ 32)
+    (hH : ∀ t m, (H t m).length = 32) (a : Int) (ha : 0 < a ∧ a < o.n) (B Gp : α)
+    (hB : L.abs B ≠ 0) (hG : L.abs Gp ≠ 0) (aux : Bytes) (haux : aux.length = 32) (msg : Option Bytes)
+    (m : Bytes) (hm : dleqMsg msg = .ok m)
+    (hk : dleqNonce o H a (o.mul a Gp) (o.mul a B) aux m ≠ 0) :
+    ∃ π, dleqGenerate o H a B aux Gp msg = .ok π ∧
+      dleqVerify o H (o.mul a Gp) B (o.mul a B) π Gp msg = .ok () := by
+  obtain ⟨π, h⟩ := dleq_generate_defined L H hn hH a ha B Gp hB hG aux haux msg m hm hk
+  exact ⟨π, h, dleq_generate_verifies H a B Gp aux msg π h⟩
+
+/-- **T8 (special soundness).** Two accepting transcripts with the same commitments and challenges
+that differ modulo `n` yield a witness `w` with `A = w•G'` and `C = w•B`: a statement with no common
+discrete logarithm is accepted for at most one challenge value (mod n) per commitment pair, i.e.
+only if the hash hits it. -/
+theorem dleq_special_sound (L : Lawful o G) (A B C Gp : α) (e s e' s' : Int)
+    (h1 : L.abs (o.dmul s Gp (-e) A) = L.abs (o.dmul s' Gp (-e') A))
+    (h2 : L.abs (o.dmul s B (-e) C) = L.abs (o.dmul s' B (-e') C))
+    (hne : (e - e') % o.n ≠ 0) :
+    ∃ w : Int, L.abs A = w • L.abs Gp ∧ L.abs C = w • L.abs B :=
+  dleq_special_soundness L A B C Gp e s e' s' h1 h2 hne
+
+/-! ## Silent payments (BIP352) -/
+
+/-- **T9 (inputs).** The scanner's sum of input public keys — taproot inputs given as the even-y
+point of their x-only key — is the sender's `prv_key_sum` times `G` (so `pub_key_sum` answers, with a
+non-zero point), whatever the mix of taproot / non-taproot inputs and their parities. -/
+theorem sp_input_sums_agree (L : Lawful o G) (keys : List (Int × Bool)) (a : Int)
+    (h : prvKeySum o keys = .ok a) :
+    0 < a ∧ a < o.n ∧
+    ∃ A, pubKeySum o (keys.map fun k => spInputPoint o k.1 k.2) = .ok A ∧ L.abs A = a • L.abs o.gen
+      ∧ L.abs A ≠ 0 :=
+  pubKeySum_of_prvKeySum L keys a h
+
+/-- **T9 (agreement).** Sender and scanner derive the same input hash and, for the recipient with
+scan key `b_scan`, the same shared secret, hence the same tweak `t_k` for every counter `k`
+(repeated recipients / labels only change which `k` and which `B_m` the tweak is added to). -/
+theorem sp_sender_scanner_agree (L : Lawful o G) (H : Bytes → Bytes → Bytes)
+    (keys : List (Int × Bool)) (a : Int) (h : prvKeySum o keys = .ok a)
+    (A : α) (hA : pubKeySum o (keys.map fun k => spInputPoint o k.1 k.2) = .ok A)
+    (lowest : Bytes) (hh : Int) (hih : inputHash o H lowest (o.mul a o.gen) = .ok hh)
+    (bScan : Int) (hb : 0 < bScan ∧ bScan < o.n) :
+    inputHash o H lowest A = .ok hh ∧
+    ∀ k, outputTweak o H (o.mul (hh * a % o.n) (o.mul bScan o.gen)) k
+        = outputTweak o H (o.mul bScan (o.mul hh A)) k :=
+  sp_agreement L H keys a h A hA lowest hh hih bScan hb
+
+/-- **T9 (what a scan reports opens).** For ANY transaction outputs, tweak data and label map built
+as `label_lookup` builds it: every `(key, tweak)` that `scan_outputs` reports is one of the outputs
+given, and `(b_spend + tweak)•G` is a non-zero point with that x-coordinate — direct and labelled
+matches, both parities, every `k`.
+(Partial with respect to DESIGN's T9: that the scan does not stop before the sender's last output —
+completeness of the `k` walk when several outputs could match one step — is not proved here; it is
+covered by the `sp.*` correspondence streams and the `sp.sender_scanner` oracle.) -/
+theorem sp_scan_reports_spendable_partial (L : Lawful o G) (H : Bytes → Bytes → Bytes)
+    (hp : o.p ≤ 256 ^ 32) (labels : List (Bytes × Int)) (hlab : LabelsOk o L labels)
+    (bScan bSpend : Int) (Bspend T : α) (hB : L.abs Bspend = bSpend • L.abs o.gen)
+    (outputs : List Bytes) (res : List (Bytes × Int))
+    (h : scanOutputs o H bScan Bspend T outputs labels = .ok res) :
+    ∀ e ∈ res, e.1 ∈ outputs ∧ ∃ P : α, L.abs P = (bSpend + e.2) • L.abs o.gen ∧ L.abs P ≠ 0
+      ∧ sBytes (o.x P) = e.1 :=
+  scanOutputs_sound L H hp labels hlab bScan bSpend Bspend T hB outputs res h
+
+/-- the generated BIP374 / BIP352 sizes are the ones the proofs used -/
+example : Gen.Interactive.DLEQ_SCALAR_SIZE = 32 ∧ Gen.Interactive.DLEQ_PROOF_SIZE = 64
+    ∧ Gen.Interactive.SP_LABEL_SIZE = 4 ∧ Gen.Interactive.SP_K_MAX = 2323 := by decide
+/-- `LabelsOk` is satisfiable non-trivially: the empty map, and hypotheses of T9 hold for it -/
+example (L : Lawful o G) : LabelsOk o L [] := fun _ h => by cases h
 
 end Props.C16
